@@ -120,6 +120,26 @@ void check_decode(Receiver &rx, const Bytes &frame, const Bytes &payload, const 
              hexdump(got.data(), got.size(), 60).c_str(), got.size(), hexdump(payload.data(), payload.size(), 60).c_str(), payload.size());
 }
 
+// the *_bigcap targets: receiver buffers of 64 KiB and more (capacities that do not fit 16 bits), mostly with ordinary
+// payloads, sometimes with a payload of about 65536 bytes
+static bool g_bigcap = false;
+struct BigCap
+{
+    BigCap() { g_bigcap = true; }
+    ~BigCap() { g_bigcap = false; }
+};
+static void stretch(Src &s, Bytes &payload)
+{
+    if (s.below(6) != 0)
+        return;
+    if (payload.empty())
+        payload.push_back('a');
+    size_t want = (size_t)s.range(65500, 66100);
+    Bytes unit = payload;
+    while (payload.size() < want)
+        payload.insert(payload.end(), unit.begin(), unit.begin() + (long)std::min(unit.size(), want - payload.size()));
+}
+
 void run_cfg(Src &s, Case &c, const Alphabet &a, const Bytes &payload, const Bytes &second)
 {
     size_t n = payload.size();
@@ -175,6 +195,8 @@ void run_cfg(Src &s, Case &c, const Alphabet &a, const Bytes &payload, const Byt
     // decode with a receiver whose buffer is just large enough .. generous
     size_t need = std::max(n, second.size()) + 2;
     size_t cap = need + (s.coin() ? 0 : (size_t)s.range(0, 62));
+    if (g_bigcap)
+        cap = std::max(need, (size_t)s.pick<uint32_t>({65535, 65536, 65537, 65538, 70000, 131072, 131073, 196608}));
     c.log(" cap=%zu", cap);
     auto rx = make_cfg_receiver(a, cap);
     check_decode(*rx, frame, payload, "receiver", 1);
@@ -196,6 +218,24 @@ void t_cfg(Src &s, Case &c)
     run_cfg(s, c, a, payload, second);
 }
 
+void t_cfg_bigcap(Src &s, Case &c)
+{
+    BigCap bc;
+    bool v0 = s.coin();
+    const Alphabet &a = v0 ? kV0 : kV1;
+    c.label(v0 ? "alphabet_v0" : "alphabet_v1");
+    Bytes payload = gen_payload(s, c, a, 300);
+    stretch(s, payload);
+    Case dummy;
+    dummy.want_desc = false;
+    Bytes second = gen_payload(s, dummy, a, 40);
+    c.log("%s payload[%zu]=%s second[%zu]", v0 ? "v0" : "v1", payload.size(), hexdump(payload.data(), payload.size(), 64).c_str(), second.size());
+    if (payload.size() > 65000)
+        c.label("payload>65000");
+    c.nontrivial = true;
+    run_cfg(s, c, a, payload, second);
+}
+
 void run_legacy(Src &s, Case &c, const Bytes &payload, const Bytes &second)
 {
     size_t n = payload.size();
@@ -208,6 +248,8 @@ void run_legacy(Src &s, Case &c, const Bytes &payload, const Bytes &second)
     Bytes frame(out.p, out.p + len);
     size_t need = std::max(n, second.size()) + 2;
     size_t cap = need + (s.coin() ? 0 : (size_t)s.range(0, 62));
+    if (g_bigcap)
+        cap = std::max(need, (size_t)s.pick<uint32_t>({65535, 65536, 65537, 65538, 70000, 131072, 131073, 196608}));
     c.log(" cap=%zu", cap);
     auto rx = make_legacy_receiver(cap);
     check_decode(*rx, frame, payload, "legacy receiver", 1);
@@ -222,6 +264,21 @@ void t_legacy(Src &s, Case &c)
     Bytes second = gen_payload(s, dummy, kV0, 40);
     c.log("legacy payload[%zu]=%s second[%zu]=%s", payload.size(), hexdump(payload.data(), payload.size(), 64).c_str(), second.size(),
           hexdump(second.data(), second.size(), 24).c_str());
+    run_legacy(s, c, payload, second);
+}
+
+void t_legacy_bigcap(Src &s, Case &c)
+{
+    BigCap bc;
+    Bytes payload = gen_payload(s, c, kV0, 300);
+    stretch(s, payload);
+    Case dummy;
+    dummy.want_desc = false;
+    Bytes second = gen_payload(s, dummy, kV0, 40);
+    c.log("legacy payload[%zu]=%s second[%zu]", payload.size(), hexdump(payload.data(), payload.size(), 64).c_str(), second.size());
+    if (payload.size() > 65000)
+        c.label("payload>65000");
+    c.nontrivial = true;
     run_legacy(s, c, payload, second);
 }
 
@@ -274,6 +331,10 @@ void t_enum(Src &s, Case &c)
 
 } // namespace
 
+VP_TARGET("gstuff_cfg_bigcap", t_cfg_bigcap,
+          "configurable codec with receiver capacities 65535, 65536, 65537, 65538, 70000, 131072, 131073, 196608 (larger than 16 bits hold): "
+          "payloads 0..300 as in gstuff_cfg, one in six stretched to 65500..66100 bytes; same oracle");
+VP_TARGET("gstuff_legacy_bigcap", t_legacy_bigcap, "legacy C codec with the same 64 KiB-and-larger receiver capacities and payloads");
 VP_TARGET("gstuff_cfg", t_cfg,
           "configurable codec, both marker alphabets: payload 0..300 (4096 in thorough) bytes from uniform / marker-only / "
           "marker-heavy / run styles, last byte optionally solved so the CRC-8 is itself a marker; random iovec partition "
